@@ -63,7 +63,11 @@ class HCM:
     # -- one pass ---------------------------------------------------------
     def run_pass(self, reversals):
         self.run += 1
-        for load in reversals:
+        carried = getattr(reversals, "carried", 0)
+        this_run = self.run
+        for number, load in enumerate(reversals):
+            # hystereses closed by a reversal that was carried over from the previous pass belong to that pass
+            booked = this_run - 1 if number < carried else this_run
             cur = None
             while cur is None:
                 iz = len(self.res)
@@ -76,7 +80,7 @@ class HCM:
                             "epsilon_min": -abs(p.strain), "epsilon_max": abs(p.strain),
                             "epsilon_min_LF": self.eps_min_lf, "epsilon_max_LF": self.eps_max_lf,
                             "is_closed_hysteresis": False, "is_zero_mean_stress_and_strain": True,
-                            "run_index": self.run})
+                            "run_index": booked})
                         self.events.append("memory3")
                         cur = self.primary(load)
                         self.ir += 1
@@ -99,7 +103,7 @@ class HCM:
                             "epsilon_min": elo.strain, "epsilon_max": ehi.strain,
                             "epsilon_min_LF": self.eps_min_lf, "epsilon_max_LF": self.eps_max_lf,
                             "is_closed_hysteresis": True, "is_zero_mean_stress_and_strain": False,
-                            "run_index": self.run})
+                            "run_index": booked})
                         del self.res[-2:]
                         self.events.append("memory2" if len(self.res) >= self.ir else "closed_to_primary")
                         self.depth = max(getattr(self, "depth", 0), iz - self.ir)
@@ -173,7 +177,17 @@ def reversal_schedule(seq, passes=2):
     for k in range(1, passes + 1):
         last = run_start(k * n)
         flush = (t_real and t_zero) if k == 1 else t_real
-        out.append([v for pos, v in rev
-                    if (pos > lower or (pos == lower and lower_incl)) and (pos < last or (pos == last and flush))])
+        sel = [(pos, v) for pos, v in rev
+               if (pos > lower or (pos == lower and lower_incl)) and (pos < last or (pos == last and flush))]
+        # a reversal carried over from the previous pass is marked: what it closes is booked under that pass
+        out.append(PassLoads([v for _, v in sel], carried=1 if (sel and lower_incl and sel[0][0] == lower) else 0))
         lower, lower_incl = last, not flush
     return out
+
+
+class PassLoads(list):
+    """The reversals one pass works through; the first ``carried`` of them stem from the previous pass."""
+
+    def __init__(self, values, carried=0):
+        super().__init__(values)
+        self.carried = carried
